@@ -208,6 +208,15 @@ def build_family(tier, seed):
                         fc.append(c)
                     if (na - len(axes[0]) >= 2 or nb - len(axes[0]) >= 2):
                         ff.append(c)
+        r4 = []
+        # rank-4 x rank-3 with two contracted pairs (two free legs in front of the contracted ones): every single-missing sparsity pattern
+        if sym in ("Z2", "U1") and not generic:
+            structs = fam.pair_structs(sym, 4, 3, two[:1], two[:1], ks=(2,))
+            structs, _ = fam.thin(structs, 60 if not thorough else 600, seed + 431)
+            for st in structs:
+                for A, B, axes, ex2 in fam.expand_pair(sym, st, rng, generic=generic, fermionic=fermionic, max_pairs=5, sparsity_threshold=2,
+                                                       phases=False, labels=(1, 2)):
+                    r4.append(dict(a=A, b=B, axes=axes))
         # pre-fused free legs: 3-leg a with two free legs fused beforehand, contracted over the remaining leg (and 4-leg with 2)
         pf = []
         structs = fam.pair_structs(sym, 3, 2, two[:2], two[:1] + one[:1], ks=(1,))
@@ -235,6 +244,10 @@ def build_family(tier, seed):
         fc, _ = fam.thin(fc, 2500 if not thorough else 25000, seed + 1)
         ff, _ = fam.thin(ff, 2000 if not thorough else 20000, seed + 2)
         pf, _ = fam.thin(pf, 1500 if not thorough else 15000, seed + 3)
+        if r4:
+            r4, _ = fam.thin(r4, 1200 if not thorough else 12000, seed + 5)
+            groups[f"modes-rank4/{nm}"] = ([dict(body="body_modes", spec=c, seed=seed + i) for i, c in enumerate(r4)], False)
+            groups[f"fuse-contracted-rank4/{nm}"] = ([dict(body="body_fuse_contracted", spec=c, seed=seed + i) for i, c in enumerate(r4[::2])], False)
         groups[f"modes/{nm}"] = ([dict(body="body_modes", spec=c, validate=(i % 60 == 0), sample=(i % 2000 == 0), seed=seed + i) for i, c in enumerate(modes_c)], False)
         groups[f"modes-prefused/{nm}"] = ([dict(body="body_modes", spec=c, sample=(i % 700 == 0), seed=seed + i) for i, c in enumerate(pf)], False)
         groups[f"fuse-contracted/{nm}"] = ([dict(body="body_fuse_contracted", spec=c, validate=(i % 60 == 0), sample=(i % 1000 == 0), seed=seed + i) for i, c in enumerate(fc)], False)
